@@ -1241,6 +1241,10 @@ class C18(Prop):
                 ops.append("SIGSIG %s %d" % (gnss, i))
             rec = [(r[1], r[2]) for r in rows]
             unrec = [(rng.randint(0, 9), rng.choice([63, 65, 67, 88, 90, 97, 233, 0x1F600])) for _ in range(12)]
+            # attributes that agree modulo 2^8 / 2^16 with each other or with a recognised one, and the lower-case twins of
+            # recognised attributes: a comparison or lookup done on a truncated or case-folded attribute confuses them
+            unrec += [(7, 65), (7, 65 + 256), (7, 65 + 65536), (3, 90), (3, 0x141), (3, 0x15A)]
+            unrec += [(b0, c0 + 256) for b0, c0 in rec[:3]] + [(b0, c0 + 32) for b0, c0 in rec[:3] if 65 <= c0 <= 90]
             unrec = [u for u in unrec if u not in rec]
             for a in rec:
                 for b in rec:
@@ -1899,6 +1903,17 @@ class C20(Prop):
             for _ in range(3 if q else 100):
                 ops.append("SERDEFRAME %s" % hx(frame_of_payload(n, rng, rng.choice([20, 60, 200, 500]), "rand")))
         ops += ["SERDE VEmpty", "SERDE VCorrupt", "SERDE VMsgNotSupported(T{i4000})"]
+        # every signal identifier of the three bias tables once (a validation on one table must not reject an identifier
+        # another table admits)
+        for num in (1059, 1065):
+            if num in g.layouts:
+                hdr = vt.parse_msg(g.gen_msg(num, "valid"))[2][1][:-1]
+                ents = [("T", [("i", 3), ("G", b0, c0), ("f", f32_bits(0.25))]) for b0, c0, _ in g.ssr[str(num)]]
+                ops.append("SERDE " + vt.show_msg(("Msg", num, ("T", hdr + [("L", ents)]))))
+        if 1230 in g.layouts:
+            hdr = vt.parse_msg(g.gen_msg(1230, "valid"))[2][1][:-1]
+            ents = [("T", [("G", b0, c0), ("f", f32_bits(0.5))]) for b0, c0 in ((1, 67), (1, 80), (2, 67), (2, 80))]
+            ops.append("SERDE " + vt.show_msg(("Msg", 1230, ("T", hdr + [("L", ents)]))))
         # frames built byte by byte (not through any constructor): text of 250..255 bytes, descriptors at capacity
         if 1029 in g.layouts:
             for cps in ([0x6e2c] * 85, [0x44f] * 125 + [49, 50, 51, 52, 53], [97] * 127, [0x6e2c] * 84 + [0xe9, 97], [0x1f600] * 63 + [97, 98, 99]):
